@@ -14,12 +14,14 @@ pub struct Shrinker<'a> {
     pub cfg: &'a PoolConfig,
     pub evaluations: usize,
     pub budget: usize,
+    /// wall-clock cap for the whole minimisation
+    pub deadline: std::time::Instant,
 }
 
 impl<'a> Shrinker<'a> {
     /// Evaluate candidates in parallel; index of the first that still fails.
     fn first_failing(&mut self, cands: &[Spec], pred: Pred) -> Option<usize> {
-        if cands.is_empty() || self.evaluations >= self.budget {
+        if cands.is_empty() || self.evaluations >= self.budget || std::time::Instant::now() > self.deadline {
             return None;
         }
         self.evaluations += cands.len();
